@@ -62,6 +62,7 @@ type info struct {
 	maxK, maxOrders, n int
 	applicable         bool
 	kind, class        string // of the failure, when runCase returns false
+	failure            *rig.Failure
 }
 
 var quiesceTimeout = 10 * time.Second
@@ -129,8 +130,9 @@ func compress(l []int) string {
 func runCase(c *rig.Ctx, cs Case, record bool, inf *info) bool {
 	fail := func(kind, class, what string, impl, model interface{}) bool {
 		inf.kind, inf.class = kind, class
+		inf.failure = &rig.Failure{Kind: kind, Class: class, What: what + " | case: " + readable(cs), Case: cs, Impl: impl, Model: model}
 		if record {
-			c.Fail(rig.Failure{Kind: kind, Class: class, What: what + " | case: " + readable(cs), Case: cs, Impl: impl, Model: model})
+			c.Fail(*inf.failure)
 		}
 		return false
 	}
@@ -412,7 +414,7 @@ func genCase(c *rig.Ctx, conc bool) Case {
 	if cs.Start == nil {
 		cs.Start = []StartCursor{}
 	}
-	nmax := c.Budget(200, 4000)
+	nmax := c.Budget(200, 1500)
 	if c.Thorough() && r.Intn(20) == 0 {
 		nmax = 10000
 	}
@@ -488,6 +490,9 @@ func shrink(c *rig.Ctx, cs Case, kind, class string) Case {
 func main() {
 	lib.SilenceKlog()
 	rig.Main("C14", func(c *rig.Ctx) {
+		if !lib.CalibrateWorkers() {
+			c.Note("health-check goroutines are not recognisable in this build's goroutine profile: the worker-count observation is off")
+		}
 		c.SetRule("one real ClusterInfo with 2-6 servers (some disabled/unhealthy), three policies (two explicit subsets in random order, sometimes with a repeated or stale name or identical to each other, and one without subset), cursors preset to 0 / small / random / near-2^64 values, then either N consecutive picks (one policy, or a random mix of the three) or 2-32 goroutines x M picks, through MatchAttributes(...).Pop() (new picker per pick or reused); distinct = distinct canonical case; non-trivial = some ready set has k >= 2 endpoints and the counting judge applies")
 		if c.Replay != "" {
 			var cs Case
@@ -514,7 +519,7 @@ func main() {
 			c.Trace()
 			runCase(c, *env.Case, true, &inf)
 		}
-		n := c.Budget(300, 6000)
+		n := c.Budget(300, 1500)
 		picks := 0
 		diffs, judged := 0, false
 		var deadline time.Time
@@ -534,12 +539,18 @@ func main() {
 				if deadline.IsZero() {
 					deadline = time.Now().Add(map[bool]time.Duration{false: 40 * time.Second, true: 5 * time.Minute}[c.Thorough()])
 				}
-				if inf.kind == "judge" {
-					judged = true
-					runCase(c, shrink(c, cs, inf.kind, inf.class), true, &inf)
-				} else if diffs < 2 {
-					diffs++
-					runCase(c, shrink(c, cs, inf.kind, inf.class), true, &inf)
+				if inf.kind == "judge" || diffs < 2 {
+					judged = inf.kind == "judge"
+					if !judged {
+						diffs++
+					}
+					// record the minimised case if it reproduces the same failure, the original observation otherwise
+					var again info
+					if small := shrink(c, cs, inf.kind, inf.class); !runCase(c, small, false, &again) && again.kind == inf.kind && again.class == inf.class {
+						c.Fail(*again.failure)
+					} else {
+						c.Fail(*inf.failure)
+					}
 				}
 			}
 		}
